@@ -2,6 +2,9 @@ import Verif.Model.SCEP
 /-!
   Line-protocol driver for C15 (SCEP PKI operation).
 
+  `conv via=linkedca|json|both secret= hooks= forcecn= caps= incroot= exint= minlen= enc= deccert= deckey=`
+                                            → the configuration after the conversion(s) and `Init` (or `uninit`)
+  `convfacts`                               → the field tables of the four conversion functions
   `wiring`                                  → routes, operations per handler, methods, mounts of the model
   `facts`                                   → the message-type sets of `Verif.SCEP.asCoded`, rendered exactly
                                               like the harness's source extractor renders what it finds
@@ -49,7 +52,9 @@ def attempts? (t : String) : Option (Attempt × Attempt) :=
 def hook? (t : String) : Option Hook :=
   match t.splitOn ":" with
   | [k, ct, r] => do
-    let k ← match k with | "scep" => some HookKind.scep | "notify" => some .notify | _ => none
+    let k ← match k with
+      | "scep" => some HookKind.scep | "notify" => some .notify | "enrich" => some .other | "bogus" => some .other
+      | _ => none
     let ct ← match ct with
       | "x509" => some CertType.x509 | "ssh" => some .ssh | "all" => some .all | "none" => some .unset | _ => none
     let (f, s2) ← attempts? r
@@ -114,7 +119,7 @@ def tagS : CertTag → String
 
 def strS (t : Str) : String := String.ofList (t.map Char.ofNat)
 
-def servedS (q : Req) (iss : Option Issued) : M Served → String
+def servedS (S : Server) (q : Req) (iss : Option Issued) : M Served → String
   | .crash => "crash hooks=0 http=0 notif=0 db=0"
   | .val r =>
     let head := match r.out with
@@ -123,7 +128,8 @@ def servedS (q : Req) (iss : Option Issued) : M Served → String
       | .fail500 => "http5xx"
       | .caCert ra certs => s!"cacert ra={if ra then 1 else 0} certs={",".intercalate (certs.map tagS)}"
       | .caCaps caps => s!"cacaps {",".intercalate (caps.map strS)}"
-      | .pkiReply rp w => replyS q rp w ++ (if rp.status == Status.success then issuedS iss else "")
+      | .pkiReply rp w =>
+        replyS q rp w ++ (if rp.status == Status.success then s!" alg={S.encAlg}" ++ issuedS iss else "")
     s!"{head} hooks={r.hookCalls} http={r.hookHttp} notif={r.notifyCalls} db={r.stored}"
 
 def pair? (t : String) : Option KeyPair :=
@@ -148,7 +154,7 @@ def certs? (t : String) : Option (List Bool) :=
   if t = "-" then some [] else t.toList.mapM fun c => if c = 'r' then some true else if c = 'n' then some false else none
 
 def hookS (h : Hook) : String :=
-  let k := match h.kind with | .scep => "scep" | .notify => "notify"
+  let k := match h.kind with | .scep => "scep" | .notify => "notify" | .other => "other"
   let ct := match h.ct with | .x509 => "x509" | .ssh => "ssh" | .all => "all" | .unset => "none"
   s!"{k}:{ct}"
 
@@ -239,9 +245,36 @@ def eval (line : String) : Option String := do
       nRoots := ← (← lookup kv "roots").toNat?
       excludeIntermediate := ← bool? (← lookup kv "exint")
       includeRoot := ← bool? (← lookup kv "incroot")
-      caps := ← strList? (← lookup kv "caps") }
+      caps := ← strList? (← lookup kv "caps")
+      encAlg := ← (← lookup kv "enc").toNat? }
     -- the handlers run on the controllers of the provisioner object, initialised `inits` times
-    pure (servedS q iss (serve (← tables kv) routesAsCoded S (initN inits (Prov.new c)) h q))
+    pure (servedS S q iss (serve (← tables kv) routesAsCoded S (initN inits (Prov.new c)) h q))
+  | "conv" :: rest =>
+    let kv := kvOf rest
+    let p : ProvCfg := {
+      cfg := { secret := ← str? (← lookup kv "secret"), hooks := ← hooks? (← lookup kv "hooks") }
+      forceCN := ← bool? (← lookup kv "forcecn")
+      caps := ← strList? (← lookup kv "caps")
+      includeRoot := ← bool? (← lookup kv "incroot")
+      excludeIntermediate := ← bool? (← lookup kv "exint")
+      minKeyLen := ← (← lookup kv "minlen").toNat?
+      encAlg := ← (← lookup kv "enc").toNat?
+      decCert := ← bool? (← lookup kv "deccert")
+      decKey := ← bool? (← lookup kv "deckey") }
+    let p' ← match (← lookup kv "via") with
+      | "linkedca" => some (roundTrip p) | "both" => some (roundTrip p) | "json" => some p | _ => none
+    match initDefaults p' with
+    | none => pure "uninit"
+    | some r =>
+      let b := fun (x : Bool) => if x then "1" else "0"
+      let caps := if r.caps.isEmpty then "-" else ",".intercalate (r.caps.map fun x => "x" ++ hex x)
+      pure (s!"secret=x{hex r.cfg.secret} hooks={hooksS r.cfg.hooks} forcecn={b r.forceCN} caps={caps} " ++
+        s!"incroot={b r.includeRoot} exint={b r.excludeIntermediate} minlen={r.minKeyLen} enc={r.encAlg} " ++
+        s!"deccert={b r.decCert} deckey={b r.decKey}")
+  | "convfacts" :: _ =>
+    let f := fun (l : List (String × String)) => ",".intercalate (l.map fun (a, b) => a ++ "<-" ++ b)
+    pure (s!"tolinked={f toLinkedcaFields} tocert={f toCertificatesFields} " ++
+      s!"whto={f webhookToLinkedcaFields} whfrom={f webhookToCertificatesFields}")
   | "init" :: rest =>
     let kv := kvOf rest
     let c : Config := { secret := ← str? (← lookup kv "secret"), hooks := ← hooks? (← lookup kv "hooks") }
